@@ -332,7 +332,10 @@ class CliPart:
             c["ped"] = ped
             c["noise"] = draw(st.integers(0, 10 ** 6))
             c["opts"] = {"threshold": draw(st.sampled_from([0, 0, 3, 10, 20, 50])), "nopriors": draw(st.booleans()),
-                         "only_snvs": draw(st.integers(0, 4)) == 0, "constant": draw(st.sampled_from([0.0, 0.0, 0.1]))}
+                         "only_snvs": draw(st.integers(0, 4)) == 0, "constant": draw(st.sampled_from([0.0, 0.0, 0.1])),
+                         "chromosomes": [c["contigs"][draw(st.integers(0, len(c["contigs"]) - 1))]["name"]] if draw(st.integers(0, 3)) == 0 else None,
+                         "samples": [draw(st.sampled_from(c["samples"]))] if not ped and draw(st.integers(0, 3)) == 0 else None,
+                         "prioroutput": draw(st.integers(0, 2)) == 0}
             return c
         return case()
 
@@ -354,6 +357,13 @@ class CliPart:
         kw = {}
         if case["ped"]:
             kw["ped"] = G.write_ped([["father", "mother", "child"]], os.path.join(d, "fam.ped"))
+        if o.get("chromosomes"):
+            kw["chromosomes"] = list(o["chromosomes"])
+        if o.get("samples"):
+            kw["samples"] = list(o["samples"])
+        prior = os.path.join(d, "prior.vcf") if o.get("prioroutput") and not o["nopriors"] else None
+        if prior:
+            kw["prioroutput"] = prior
         buf = _io.StringIO()
         with contextlib.redirect_stdout(buf), contextlib.redirect_stderr(buf):
             with open(out, "w") as fo:
@@ -362,13 +372,32 @@ class CliPart:
         P.check_readable(out, "genotype")
         gt_prob = 1.0 - 10 ** (-o["threshold"] / 10.0)
         nt = False
-        with pysam.VariantFile(out) as vf:
+        sel_chroms = set(o.get("chromosomes") or [c["name"] for c in case["contigs"]])
+        sel_samples = set(o.get("samples") or case["samples"])
+        # chromosomes that were not requested are copied
+        if o.get("chromosomes"):
+            from vlib import vcfmodel as vm
+            _, a = vm.read_vcf(vcf)
+            _, b = vm.read_vcf(out)
+            a = [r for r in a if r["chrom"] not in sel_chroms]
+            b = [r for r in b if r["chrom"] not in sel_chroms]
+            for kind, msg in vm.diff_records(a, b, ignore_format=(), compare_gt="exact"):
+                ctx.violation("cli:unselected-chromosome:" + kind, msg)
+            ctx.label("chromosome-selection")
+        files = [("", out)] + ([(":prior", prior)] if prior else [])
+        for suffix, path in files:
+          if suffix:
+            P.check_readable(path, "genotype --prioroutput")
+            ctx.label("prior-output")
+          with pysam.VariantFile(path) as vf:
             for rec in vf:
                 for s, call in rec.samples.items():
                     gl = call["GL"] if "GL" in rec.format.keys() else None
                     gt = call["GT"]
                     gq = call["GQ"] if "GQ" in rec.format.keys() else None
-                    where = "%s:%d sample %s" % (rec.chrom, rec.pos, s)
+                    where = "%s:%d sample %s%s" % (rec.chrom, rec.pos, s, suffix)
+                    if (rec.chrom not in sel_chroms or s not in sel_samples) and (gl is None or any(x is None for x in gl)):
+                        continue   # not a genotyped call
                     if gl is None or any(x is None for x in gl):
                         ctx.violation("cli:gl-missing", "%s has no GL (%r)" % (where, gl))
                         continue
